@@ -377,6 +377,12 @@ func (ff *FuncFacts) factsAtForeign(blk *ssa.BasicBlock) []Fact {
 		}
 		for _, f := range factsOfMode(target, ff.conv).FactsAt(blk) {
 			add(liftFactAlong(ch, target, f, ff.conv))
+			// `param != nil` where the argument is a pointer that is nil on all ways into the call
+			// but one (built under a flag, nil otherwise): control came over that way, and what
+			// holds on it holds here
+			for _, g := range nonNilArgFacts(ch, target, f, ff.conv) {
+				add(g)
+			}
 		}
 		if common == nil {
 			common, order = here, ord
@@ -1270,4 +1276,60 @@ func chainTarget(ch []*ssa.Call) *ssa.Function {
 		return g
 	}
 	return calleeOf(last)
+}
+
+// nonNilArgFacts: see factsAtForeign. f is a fact of the helper `target` (last callee of ch).
+func nonNilArgFacts(ch []*ssa.Call, target *ssa.Function, f Fact, conv bool) []Fact {
+	if !f.IsCmp || f.Op != token.NEQ || len(ch) == 0 {
+		return nil
+	}
+	var pt *Term
+	switch {
+	case f.L != nil && f.L.Op == "param" && f.R != nil && f.R.Op == "const" && f.R.Sym == "nil":
+		pt = f.L
+	case f.R != nil && f.R.Op == "param" && f.L != nil && f.L.Op == "const" && f.L.Sym == "nil":
+		pt = f.R
+	default:
+		return nil
+	}
+	call := ch[len(ch)-1]
+	if calleeOf(call) != target {
+		return nil
+	}
+	idx := -1
+	for i, p := range target.Params {
+		if pt.V == ssa.Value(p) {
+			idx = i
+		}
+	}
+	if idx < 0 || idx >= len(call.Call.Args) {
+		return nil
+	}
+	phi, ok := stripConv(call.Call.Args[idx]).(*ssa.Phi)
+	if !ok {
+		return nil
+	}
+	cand := -1
+	for k, e := range phi.Edges {
+		if c, isC := e.(*ssa.Const); isC && c.Value == nil {
+			continue
+		}
+		if cand >= 0 {
+			return nil
+		}
+		cand = k
+	}
+	if cand < 0 || cand >= len(phi.Block().Preds) {
+		return nil
+	}
+	caller := phi.Parent()
+	cf := factsOfMode(caller, conv)
+	var out []Fact
+	for _, g := range cf.FactsOnEdge(phi.Block().Preds[cand], phi.Block()) {
+		if len(ch) > 1 {
+			g = liftFactAlong(ch[:len(ch)-1], caller, g, conv)
+		}
+		out = append(out, g)
+	}
+	return out
 }
